@@ -10,6 +10,8 @@ type prop struct {
 	ThoroughBatches  int
 	QuickTimeoutS    int // per child
 	ThoroughTimeoutS int
+	// ThoroughScale multiplies the PRNG-determined case counts (and the per-batch timeout) of the thorough tier
+	ThoroughScale int
 	GoMaxProcs       []int // rotated over batches
 	Parallel         int   // children in flight
 	Level            string
